@@ -134,11 +134,21 @@ func (s *CertPool) findVerifiedParents(cert *Certificate) (parents []int, errCer
 	}
 	var candidates []int
 
+	// The authority key identifier is a hint, not a constraint (RFC 5280,
+	// 4.2.1.1): certificates carrying it are tried first, but the other
+	// certificates with the issuer's name remain candidates, e.g. an issuer
+	// without a subject key identifier.
 	if len(cert.AuthorityKeyId) > 0 {
-		candidates = s.bySubjectKeyId[string(cert.AuthorityKeyId)]
+		candidates = append(candidates, s.bySubjectKeyId[string(cert.AuthorityKeyId)]...)
 	}
-	if len(candidates) == 0 {
-		candidates = s.byName[string(cert.RawIssuer)]
+NextByName:
+	for _, c := range s.byName[string(cert.RawIssuer)] {
+		for _, k := range candidates {
+			if k == c {
+				continue NextByName
+			}
+		}
+		candidates = append(candidates, c)
 	}
 
 	for _, c := range candidates {
